@@ -309,7 +309,8 @@ uint64_t can_encode_signal_from_float(float signal, uint32_t start, uint32_t len
 
 int64_t can_decode_signal_as_int64_t(const CanFrame *msg, uint32_t start, uint32_t length,
                                      float scale, float offset, bool is_big_endian) {
-    int64_t bitfield = get_bitfield(can_word(msg), start, length);
+    uint64_t raw = get_bitfield(can_word(msg), start, length);
+    int64_t bitfield = length < 64 ? bitfield_sign_conv(raw, length) : (int64_t)raw;
     if (is_big_endian) bitfield = swap_bytes_int(bitfield, I64);
 
     return apply_linear_int64_t(bitfield, scale, offset);
